@@ -306,6 +306,19 @@ func c08Generated(u *universe, thorough bool) []c08Harness {
 				}
 			}
 		}
+		// four threads over a reduced alphabet (tag move, deletes, reads, commit, write)
+		small := []cOp{al[2], al[3], al[4], al[7], al[10], al[11]}
+		for i, a := range small {
+			for j, b := range small {
+				for k, c := range small {
+					for l, d := range small {
+						if i <= j && j <= k && k <= l {
+							hs = append(hs, c08Harness{Name: fmt.Sprintf("G4x1/%d-%d-%d-%d", i, j, k, l), Prologue: c08Seed, Threads: [][]cOp{{a}, {b}, {c}, {d}}})
+						}
+					}
+				}
+			}
+		}
 	}
 	return hs
 }
